@@ -6,6 +6,8 @@ import json, os, subprocess, sys, time
 
 scratch, tier, seed, nplain, nrace, sites, start = sys.argv[1], sys.argv[2], int(sys.argv[3]), int(sys.argv[4]), int(sys.argv[5]), sys.argv[6], float(sys.argv[7])
 VERIF = os.environ.get("VERIF", "/verif")
+KMODE = os.environ.get("CONC_MODE", "all")
+PROP = os.environ.get("CONC_PROP", "C19")
 WORKERS = 16
 base = seed * 100_000_000
 
@@ -14,7 +16,7 @@ def launch(binary, a, b, tag, race):
     env = dict(os.environ, GOMAXPROCS="1")
     if race:
         env["GORACE"] = f"halt_on_error=1 exitcode=66 log_path={out}.race"
-    p = subprocess.Popen([binary, "-from", str(a), "-to", str(b), "-out", out], env=env, stdout=subprocess.DEVNULL, stderr=subprocess.PIPE)
+    p = subprocess.Popen([binary, "-from", str(a), "-to", str(b), "-out", out, "-mode", KMODE], env=env, stdout=subprocess.DEVNULL, stderr=subprocess.PIPE)
     return {"p": p, "a": a, "b": b, "out": out, "tag": tag, "race": race, "bin": binary, "restarts": 0}
 
 def batch(binary, n, race, off):
@@ -80,7 +82,7 @@ def wait_all(jobs):
                     report += open(os.path.join(scratch, f), errors="replace").read()
                     os.remove(os.path.join(scratch, f))
             lines = [l.strip() for l in report.splitlines() if l.strip()]
-            keep = [l for l in lines if ("builtInFunctions/" in l or "container/" in l or "/atomic/" in l or l.startswith("WARNING") or l.startswith("Previous") or l.startswith("Write at") or l.startswith("Read at"))][:14]
+            keep = [l for l in lines if ("builtInFunctions/" in l or "container/" in l or "/atomic/" in l or "parsers/" in l or l.startswith("WARNING") or l.startswith("Previous") or l.startswith("Write at") or l.startswith("Read at"))][:14]
             violations.append({"seed": cur, "from": job["a"], "kind": "data-race", "detail": "race detector under the deterministic schedule: " + " | ".join(keep), "race": True, "choices": []})
         elif rc == 3 and cur is not None:
             try:
@@ -111,7 +113,7 @@ if trouble:
 
 known = []
 try:
-    known = [k for k in json.load(open(os.path.join(VERIF, "known_findings.json")))["findings"] if k.get("property") == "C19" and k.get("status") == "open"]
+    known = [k for k in json.load(open(os.path.join(VERIF, "known_findings.json")))["findings"] if k.get("property") == PROP and k.get("status") == "open"]
 except Exception:
     pass
 
@@ -124,10 +126,10 @@ for v in sorted(violations, key=lambda v: len(v.get("choices") or [])):
     reported.add(v["kind"])
     kf = next((k for k in known if k.get("match") and k["match"] in v["kind"] + " " + v["detail"]), None)
     if kf:
-        print(f"KNOWN-FINDING: property=C19 {kf['key']} ({kf['what']})")
+        print(f"KNOWN-FINDING: property={PROP} {kf['key']} ({kf['what']})")
         continue
-    path = os.path.join(VERIF, "replays", f"C19-seed{v['seed']}-{v['kind']}.json")
-    rf = {"property": "C19", "seed": v["seed"], "from": v.get("from", v["seed"]), "mode": "all", "race": bool(v.get("race")) and v["kind"] == "data-race", "violation":
+    path = os.path.join(VERIF, "replays", f"{PROP}-seed{v['seed']}-{v['kind']}.json")
+    rf = {"property": PROP, "engine": "conc", "seed": v["seed"], "from": v.get("from", v["seed"]), "mode": KMODE, "race": bool(v.get("race")) and v["kind"] == "data-race", "violation":
           {"seed": v["seed"], "kind": v["kind"], "detail": v["detail"], "choices": v.get("choices") or [], "steps": v.get("steps", 0), "switches": v.get("switches", 0), "min_switches": v.get("min_switches", 0)}}
     json.dump(rf, open(path, "w"))
     # confirm in a fresh process
@@ -138,19 +140,22 @@ for v in sorted(violations, key=lambda v: len(v.get("choices") or [])):
         print(f"HARNESS TROUBLE: violation {v['kind']} of seed {v['seed']} does not replay in a fresh process (rc={r.returncode})", file=sys.stderr)
         sys.exit(2)
     print(f"violation (seed {v['seed']}, {v.get('steps', '?')} steps, {v.get('switches', '?')} context switches, minimised to {v.get('min_switches', '?')}): {v['kind']}: {v['detail'][:1200]}")
-    print(f"VIOLATION property=C19 replay={path}")
+    print(f"VIOLATION property={PROP} replay={path}")
     exit_code = 1
 
 wall = time.time() - start
 holes = []
-if tier == "thorough" and exit_code == 0:
+if KMODE == "parse":
+    if agg["by_kind"].get("parse", 0) == 0:
+        holes.append("parse")
+elif tier == "thorough" and exit_code == 0:
     for k in ("map", "container", "atomic", "exec"):
         if agg["by_kind"].get(k, 0) == 0:
             holes.append(k)
     if agg["exec_overlapping_reprice"] == 0:
         holes.append("execution overlapping a schedule change")
 ev = {
-    "property_id": "C19", "tier": tier, "seed": seed, "level": "exploration",
+    "property_id": PROP, "tier": tier, "seed": seed, "level": "exploration",
     "coverage": {
         "evaluations": agg["runs"],
         "distinct_nontrivial": len(schedules),
@@ -177,8 +182,29 @@ ev = {
     ],
     "wall_s": wall, "violations": len(violations),
 }
-json.dump(ev, open(os.path.join(VERIF, "evidence", "C19.json"), "w"), indent=1)
-print(f"runs={agg['runs']} race-runs={race_runs} steps={agg['steps']} switches={agg['switches']} schedules={len(schedules)} exec-overlaps={agg['exec_overlapping_reprice']} unknown={agg['porcupine_unknown']} wall={wall:.1f}s")
+if KMODE == "parse":
+    # the shared-parser workload is a second stage of another property's check: its figures are added
+    # to the evidence file the first stage has just written
+    path = os.path.join(VERIF, "evidence", PROP + ".json")
+    try:
+        first = json.load(open(path))
+    except Exception as e:
+        print(f"HARNESS TROUBLE: the first stage left no evidence file to extend: {e}", file=sys.stderr)
+        sys.exit(2)
+    c = ev["coverage"]
+    first["coverage"]["shared_parser_stage"] = {
+        "what": "2-8 tasks parse messages of a common pool through one shared instance of each transaction-data parser under the seeded statement-level scheduler (plain and race-enabled); every report must equal the report of a fresh instance when nothing else runs, inputs must be left unchanged",
+        "simulated_runs": c["simulated_runs"], "race_detector_runs": c["race_detector_runs"], "parses_under_interleaving": agg["ops"],
+        "scheduling_steps": c["scheduling_steps"], "context_switches": c["context_switches"], "distinct_schedules": len(schedules),
+        "yield_sites": c["yield_sites"], "seeds": c["seeds"], "samples": samples, "violations": len(violations), "wall_s": wall,
+    }
+    first["wall_s"] = first.get("wall_s", 0) + wall
+    first["violations"] = first.get("violations", 0) + len(violations)
+    first.setdefault("assumptions", []).append("shared-parser stage: interleavings at statement granularity of package parsers; the codec and the standard library run atomically")
+    json.dump(first, open(path, "w"), indent=1)
+else:
+    json.dump(ev, open(os.path.join(VERIF, "evidence", "C19.json"), "w"), indent=1)
+print(f"{'shared-parser stage: ' if KMODE == 'parse' else ''}runs={agg['runs']} race-runs={race_runs} steps={agg['steps']} switches={agg['switches']} schedules={len(schedules)} exec-overlaps={agg['exec_overlapping_reprice']} unknown={agg['porcupine_unknown']} wall={wall:.1f}s")
 if holes:
     print("COVERAGE HOLE (exit 2, not a violation):", holes, file=sys.stderr)
     sys.exit(2)
